@@ -15,8 +15,8 @@ variable {H S F : Type} [DecidableEq H]
 
 /-! ## the property, with the hypotheses the proof needs -/
 
-/-- **Transparency.** Starting from an empty build directory, every run of the history reports (per file and whole
-    program) exactly what a run without build directory reports on the same tree, provided
+/-- **Transparency for any key composition and any lookup.** Starting from an empty build directory, every run of the history
+    reports (per file and whole program) exactly what a run without build directory reports on the same tree, provided
     * `hinj`  the hash function has no collisions,
     * `henc`  on the inputs the history analyses the hash data determines the analysis input
               (path, non-comment tokens with full locations, header names and tokens),
@@ -24,7 +24,7 @@ variable {H S F : Type} [DecidableEq H]
     * `hmap`  in every run each listed file is looked up in its own line of files.txt,
     * `hsum`  no analysis result of the history depends on the function-return summaries (`*.sN`) that the run loads
               from the build directory at its start. -/
-theorem history_transparent_partial (W : World H S F) (t0 : Tree) (evs : List Event)
+theorem history_transparent_generic (W : World H S F) (t0 : Tree) (evs : List Event)
     (hinj : Function.Injective W.hash)
     (henc : KeyFaithfulOn W.enc ((runsOf t0 evs).flatMap (·.2)))
     (hmac : ∀ r ∈ runsOf t0 evs, MacroFree W r.1 r.2)
@@ -35,7 +35,7 @@ theorem history_transparent_partial (W : World H S F) (t0 : Tree) (evs : List Ev
     (fun r hr => ⟨fun _ hi => List.mem_flatMap.mpr ⟨r, hr, hi⟩, hmac r hr, hmap r hr⟩) hsum
 
 /-- the per-file findings alone do not depend on the file-to-cache-file mapping -/
-theorem history_transparent_perFile_partial (W : World H S F) (t0 : Tree) (evs : List Event)
+theorem history_transparent_perFile_generic (W : World H S F) (t0 : Tree) (evs : List Event)
     (hinj : Function.Injective W.hash)
     (henc : KeyFaithfulOn W.enc ((runsOf t0 evs).flatMap (·.2)))
     (hmac : ∀ r ∈ runsOf t0 evs, MacroFree W r.1 r.2)
@@ -58,7 +58,8 @@ example :
     ∧ (∀ r ∈ cachedRuns W ([], []) t0 evs, SummFree W r.1 r.2) := by
   refine ⟨fun _ _ h => h, by decide +kernel, by decide +kernel, by decide +kernel, by decide +kernel⟩
 
-/-! ## each hypothesis is necessary: the code at the pinned commit violates the unconditional statement -/
+/-! ## each hypothesis of the generic theorem is necessary: counterexamples for the key composition and the lookup of the pinned
+    commit (repaired by 72c97eb / 249f096), and for the two defects that remain -/
 
 /-- F3: `static_cast<char>(line)` / `(col)`: the same token on line 1 and on line 257 (column 1 and 257) has the same hash data -/
 theorem encoding_not_injective :
@@ -132,7 +133,7 @@ theorem summaries_counterexample :
     ∧ ((execFresh W t0 evs).map (·.perFile.flatten.map (·.id)) = [[], []]) := by
   refine ⟨by decide +kernel, by decide +kernel, by decide +kernel⟩
 
-/-! ## the proposed key composition and lookup discharge `henc` and `hmap` -/
+/-! ## the key composition and the lookup of the current code discharge `henc` and `hmap` -/
 
 /-- toolinfo starts with `<len>:<path>` (what the proposed CppCheck::calculateHash writes first) -/
 def PathPrefixed (i : FileInput) : Prop := (dec i.path.length ++ ':' :: i.path) <+: i.toolinfo
@@ -188,10 +189,18 @@ theorem files_txt_mapping_injective_partial (paths : List Str) (hnd : paths.Nodu
 example : NoSuffixPair ["a.c".toList, "d/b.c".toList, "ba.cpp".toList] ∧ ["a.c".toList, "d/b.c".toList, "ba.cpp".toList].Nodup := by
   decide +kernel
 
-/-- **Transparency for the proposed code** (/verif/proposed/C18-hash-linecol.diff + C18-filestxt-exact.diff): only the hash
-    collisions, the macro-scoped suppressions and the return summaries remain as hypotheses (`hopt` holds for every history
-    that changes no option); every edit history qualifies. -/
-theorem history_transparent_fixed (W : World H S F) (t0 : Tree) (evs : List Event)
+/-- **Transparency (the property, for the code as it is: commits 72c97eb + 249f096).**  For every hash function, per-file
+    analysis, summaries and whole-program analysis: every run of every history over one build directory – any edits: token
+    edits, line and column shifts of any size, comment edits, header edits, adding / removing / renaming / touching files –
+    reports what a run without build directory reports, given
+    * `hinj`  no hash collisions,
+    * `hpath` toolinfo starts with `<len>:<path>` (what CppCheck::calculateHash writes: `current_toolinfo_path_first`),
+    * `hopt`  toolinfo determines the option values (every history that changes no option; C19 otherwise),
+    * `hnd`   a run lists no path twice,
+    and excluding the two defects that remain in the code (known findings):
+    * `hmac`  no macro-scoped suppression decides a replayed finding,
+    * `hsum`  no result depends on the function-return summaries loaded from the build directory. -/
+theorem history_transparent_partial (W : World H S F) (t0 : Tree) (evs : List Event)
     (henc : W.enc = Encoding.fixed) (hlk : W.lk = .exactFirst)
     (hinj : Function.Injective W.hash)
     (hpath : ∀ r ∈ runsOf t0 evs, ∀ i ∈ r.2, PathPrefixed i)
@@ -200,7 +209,7 @@ theorem history_transparent_fixed (W : World H S F) (t0 : Tree) (evs : List Even
     (hmac : ∀ r ∈ runsOf t0 evs, MacroFree W r.1 r.2)
     (hsum : ∀ r ∈ cachedRuns W ([], []) t0 evs, SummFree W r.1 r.2) :
     execCached W ([], []) t0 evs = execFresh W t0 evs := by
-  refine history_transparent_partial W t0 evs hinj ?_ hmac ?_ hsum
+  refine history_transparent_generic W t0 evs hinj ?_ hmac ?_ hsum
   · rw [henc]
     refine fixed_key_faithful _ ?_ hopt
     intro i hi
@@ -208,7 +217,7 @@ theorem history_transparent_fixed (W : World H S F) (t0 : Tree) (evs : List Even
     exact hpath r hr i hir
   · intro r hr; rw [hlk]; exact exactFirst_mapOK _ (hnd r hr)
 
-/-- the history of F3 under the proposed code: the hypotheses hold and both runs are transparent -/
+/-- the history of F3 under the current code: the hypotheses hold and both runs are transparent -/
 example :
     let W := toyWorld Encoding.fixed .exactFirst
     let t0 : Tree := [(mkInput "t.c" [("x", 1, 1), ("!", 1, 25)]).withPathPrefix]
@@ -221,10 +230,20 @@ example :
 
 /-! ## what the code composes today (regenerated from the source on every run) -/
 
-/-- the translated composition is one of the two the theorems speak about -/
-theorem current_encoding_classified :
-    Cppcheck.Gen.HashInput.encoding = Encoding.legacy ∨ Cppcheck.Gen.HashInput.encoding = Encoding.fixed := by
-  decide
+/-- Preprocessor::calculateHash composes the uniquely decodable hash data -/
+theorem current_encoding_fixed : Cppcheck.Gen.HashInput.encoding = Encoding.fixed := by decide
+
+/-- getAnalyzerInfoFileFromFilesTxt prefers the exact path -/
+theorem current_lookup_exact : Cppcheck.Gen.HashInput.lookupKind = .exactFirst := by decide
+
+/-- CppCheck::calculateHash writes `<len>:<path>` first: every toolinfo it renders is `PathPrefixed` -/
+theorem current_toolinfo_path_first (sv : SettingsView) (ti : Str)
+    (h : renderToolinfo Cppcheck.Gen.HashInput.toolinfoItems sv = some ti) :
+    (dec sv.filePath.length ++ ':' :: sv.filePath) <+: ti :=
+  render_pathPrefixed (Cppcheck.Gen.HashInput.toolinfoItems.drop 3) sv ti (by
+    have : Cppcheck.Gen.HashInput.toolinfoItems
+        = .filePathLen :: .lit ':' :: .filePath :: Cppcheck.Gen.HashInput.toolinfoItems.drop 3 := by decide
+    rw [this] at h; exact h)
 
 /-- every field the translated toolinfo chain reads is one the model's `SettingsView` carries -/
 theorem current_toolinfo_fields_known :
